@@ -55,7 +55,9 @@ ASSUMPTIONS = [
     'live server (APOC procedures, label existence, result shapes) is out of reach',
     'data positions = graph ids, node ids, names, types given as values (ntype), property values, component models, '
     'file names; identifiers = class labels, relation kinds, property names (dictionary keys), merge-policy keywords; '
-    'identifiers are held constant and may legitimately appear in the text',
+    'identifiers are held constant and may legitimately appear in the text (so the quoted policy words of '
+    'merge_nodes(merge_properties=...) and the quoted labels / relation kinds in add_node / add_link are not '
+    'counted as value splices)',
     'an unknown backslash escape inside a literal is decoded leniently (kept verbatim) because dialects differ; '
     'verdicts rely only on escapes every dialect defines (\\\\ \\\' \\" \\n \\t \\b \\f \\r \\uXXXX)',
     'answers of the stand-in driver come from a shadow model and only steer control flow',
@@ -305,6 +307,18 @@ def lex(text, params):
     return r
 
 
+def param_delta_ok(a, b, v0, vp):
+    """A parameter (possibly a map / list carrying several values) may differ between baseline and variant only in
+    leaves that hold exactly the benign value resp. exactly the value passed."""
+    if type(a) is type(b) and a == b:
+        return True
+    if isinstance(a, dict) and isinstance(b, dict) and list(a.keys()) == list(b.keys()):
+        return all(param_delta_ok(a[k], b[k], v0, vp) for k in a)
+    if isinstance(a, (list, tuple)) and isinstance(b, (list, tuple)) and len(a) == len(b):
+        return all(param_delta_ok(x, y, v0, vp) for x, y in zip(a, b))
+    return type(a) is type(v0) and a == v0 and type(b) is type(vp) and b == vp
+
+
 def op_key(opname, ordinal):
     return opname if not ordinal else f'{opname}#{ordinal + 1}'
 
@@ -446,7 +460,7 @@ def differential(opname, fn, self, args, frame):
                     continue
                 ctx.count('clause:f-param-delivery')
                 for k in p0:
-                    if p0[k] != pp[k] and not (p0[k] == v0 and pp[k] == vp):
+                    if not param_delta_ok(p0[k], pp[k], v0, vp):
                         ctx.violation(f'C19/{op_key(opname, e0["ordinal"])}-param-mangled-{sname}',
                                       '(f) a data value handed over as a parameter reaches the driver unchanged', {
                                           'class': type(self).__name__, 'op': opname,
@@ -909,7 +923,6 @@ def drive_arm_adm_cbm(env, arm, b, d1, d2, want):
     for atype in (DelegationType.CAPACITY, DelegationType.LABEL):
         call(cbm, 'get_delegations', node_id=pick_id(env, ids, 0.1), adm_id=adm_graphs[0].graph_id, delegation_type=atype)
     # queries
-    srv = M.shadow.node(cbm.graph_id, b['server'])
     props = {'Site': b['site'], 'Type': 'Server'}
     call(cbm, 'get_matching_nodes_with_components', label=A.CLASS_NetworkNode, props=props)
     call(cbm, 'get_matching_nodes_with_components', label=A.CLASS_NetworkNode, props={'Name': v('nm')}, comps=None)
@@ -924,7 +937,7 @@ def drive_arm_adm_cbm(env, arm, b, d1, d2, want):
     call(cbm, 'get_matching_nodes_with_components', label=A.CLASS_NetworkNode, props={}, comps=ci)
     for q in ('get_intersite_links', 'get_sites', 'get_disconnected_sites', 'get_connected_sites', 'get_facility_ports'):
         call(cbm, q)
-    bqm = call(cbm, 'get_bqm')
+    call(cbm, 'get_bqm')
     snap = call(cbm, 'snapshot')
     if snap is not None:
         call(cbm, 'update_node_property', node_id=pick_id(env, ids, 0), prop_name=A.PROP_DETAILS, prop_val=v('changed'))
